@@ -37,8 +37,9 @@ type cfg struct {
 	PartialAcks bool   `json:"partial_acks"` // ACKs that fall inside segments (ack division)
 	DupAcks     int    `json:"dup_acks"`
 	OwnISS      uint32 `json:"own_iss"`
-	LateMs      int    `json:"late_ms"`  // latewrite: pause between the ACK and the second write
-	Shutdown    bool   `json:"shutdown"` // silent: the write side is shut down right after the write (a FIN is queued behind the data)
+	LateMs      int    `json:"late_ms"`    // latewrite: pause between the ACK and the second write
+	Shutdown    bool   `json:"shutdown"`   // silent: the write side is shut down right after the write (a FIN is queued behind the data)
+	StaleICMP   int    `json:"stale_icmp"` // ICMP fragmentation-needed reports naming an MTU not below the current one, right after the first flight
 }
 
 func gen(seed int64, k int) cfg {
@@ -80,6 +81,9 @@ func gen(seed int64, k int) cfg {
 		c.LateMs = []int{100, 400, 600, 800, 900, 1100}[r.Intn(6)]
 	}
 	c.Shutdown = c.Kind == "silent" && r.Chance(1, 3)
+	if r.Chance(1, 4) {
+		c.StaleICMP = 1 + r.Intn(4)
+	}
 	return c
 }
 
@@ -257,6 +261,21 @@ func scenario(c cfg) {
 	}
 	for _, d := range first {
 		lastTx[d.rel] = d.t
+	}
+	if c.StaleICMP > 0 {
+		// a router repeats itself: "fragmentation needed" / "packet too big" reports naming the
+		// MTU the connection uses already (or a larger one). Nothing changes for the path and
+		// nothing in flight is known to be lost, so nothing may be sent because of them - now
+		// or when the next event makes the sender look at its queue again.
+		for i := 0; i < c.StaleICMP; i++ {
+			conn.FragNeeded(first[r.Intn(len(first))].rel, 1500+(i%2)*500, uint16(i))
+		}
+		segs := conn.Take()
+		tr("%d ICMP reports that do not lower the path MTU -> %d segments", c.StaleICMP, len(segs))
+		for _, d := range note(segs, "after ICMP reports that do not lower the path MTU") {
+			lastTx[d.rel] = d.t
+		}
+		run.Count("stale_icmp_reports", int64(c.StaleICMP))
 	}
 	absSeg := func(i int) int64 { return int64(i) * mss }
 
